@@ -635,6 +635,9 @@ def check_C14(ctx, rep):
 
 
 def check_C15(ctx, rep):
+    small_models2.check_nfa_run(ctx, rep, ctx.prog.func('nfa_algorithms.nfa_simulate_word'))
+    small_models2.check_pda_run(ctx, rep, ctx.prog.func('pda_algorithms.pda_simulate_word'))
+    rep.clauses_decided.append('nfa_simulate_word and pda_simulate_word return a run exactly for the accepted words of the model NFAs / PDAs, and every returned run is genuine: from the initial configuration to a final state with the word read, each row by one transition (M29, M30, finite models)')
     rep.clauses_decided += ['epsilon-path searches terminate and their predecessor maps are written once per node (R-WORK W2/W3)',
                             'the unread-input column is the suffix word[k:] in all three simulators (M8)',
                             'the history alternates raw and closed sets; acceptance and steps on closed sets (R-CLOSED i/ii/iv)',
